@@ -654,6 +654,85 @@ class DeclGen(Gen):
             trees += t
         return lx + [kw("END_VAR"), N], trees
 
+    def located_block(self, incomplete, allow_constant):
+        """VAR [qualifier]  name AT %I* : spec ;  (incompletely located, in function blocks and programs)   or
+        [name] AT %IX1.2 : simple type [:= value] ;  (located, in programs)  END_VAR"""
+        r = self.rng
+        q = r.choice([None, "RETAIN", "NON_RETAIN"] + (["CONSTANT"] if allow_constant and not incomplete else []))
+        lx = [kw("VAR")] + ([kw(q)] if q else []) + [N]
+        trees = []
+        for _ in range(r.choice([1, 1, 2, 3])):
+            n = self.name("v")
+            loc = r.choice("IQM")
+            if incomplete:
+                lx += [ident(n), kw("AT"), lit("%" + loc + "*"), sym(":")]
+                size = "unspecified"
+                name = low(n)
+                k = r.randrange(6)
+                if k == 0:
+                    typ = r.choice(ELEM)
+                    lx.append(kw(typ))
+                    init = simple_init(typ, None)
+                elif k == 1:
+                    wide = r.random() < 0.5
+                    lx.append(kw("WSTRING" if wide else "STRING"))
+                    length = None
+                    if r.random() < 0.5:
+                        length = r.randint(1, 80)
+                        lx += [sym("["), lit(str(length)), sym("]")]
+                    init = V("String", T("StringInitializer", length=None if length is None else "i:%d" % length,
+                                         width="wstring" if wide else "string", initial_value=None))
+                elif k == 2:
+                    tn = self.name("Ty")
+                    lx.append(ident(tn))
+                    init = V("EnumeratedType", T("EnumeratedInitialValueAssignment", type_name=T("Type", name=low(tn)), initial_value=None))
+                elif k == 3:
+                    typ = r.choice(["INT", "SINT", "DINT", "UINT"])
+                    lo, hi = r.randrange(0, 5), r.randrange(5, 100)
+                    lx += [kw(typ), sym("("), lit(str(lo)), sym(".."), lit(str(hi)), sym(")")]
+                    init = V("Subrange", V("Specification", T("SubrangeSpecification", type_name=low(typ),
+                                                              subrange=T("Subrange", start="i:%d" % lo, end="i:%d" % hi))))
+                elif k == 4:
+                    vals = [self.name("E") for _ in range(r.choice([1, 2, 3]))]
+                    lx.append(sym("("))
+                    for i, v in enumerate(vals):
+                        if i:
+                            lx.append(sym(","))
+                        lx.append(ident(v))
+                    lx.append(sym(")"))
+                    init = V("EnumeratedValues", T("EnumeratedValuesInitializer", values=[enum_value(v) for v in vals], initial_value=None))
+                else:
+                    dims = [(r.randrange(0, 3), r.randrange(3, 9)) for _ in range(r.choice([1, 2]))]
+                    typ = r.choice(["INT", "BOOL", "DINT"])
+                    lx += [kw("ARRAY"), sym("[")]
+                    for i, (lo, hi) in enumerate(dims):
+                        if i:
+                            lx.append(sym(","))
+                        lx += [lit(str(lo)), sym(".."), lit(str(hi))]
+                    lx += [sym("]"), kw("OF"), kw(typ)]
+                    init = V("Array", T("ArrayInitialValueAssignment", initial_values=[],
+                                        spec=V("Subranges", T("ArraySubranges", ranges=[T("Subrange", start="i:%d" % lo, end="i:%d" % hi) for lo, hi in dims],
+                                                              type_name=T("Type", name=low(typ))))))
+            else:
+                named = r.random() < 0.8
+                sz = r.choice(["X", "B", "W", "D", "L"])
+                addr = ".".join(str(r.randrange(0, 10)) for _ in range(r.choice([1, 2, 3])))
+                lx += ([ident(n)] if named else []) + [kw("AT"), lit("%" + loc + sz + addr), sym(":")]
+                size = sz.lower()
+                name = low(n) if named else None
+                typ = r.choice(["BOOL", "INT", "DINT", "REAL"])
+                lx.append(kw(typ))
+                val = None
+                if r.random() < 0.4 or q == "CONSTANT":
+                    vl, val = self.literal_for(typ)
+                    lx += [sym(":=")] + vl
+                init = simple_init(typ, val)
+            lx += [sym(";"), N]
+            trees.append(T("VarDecl", identifier=V("Direct", T("DirectVariableIdentifier", name=name,
+                                                               address_assignment=T("AddressAssignment", location=low(loc), size=size))),
+                           var_type="var", qualifier=self.QUAL[q], initializer=init))
+        return lx + [kw("END_VAR"), N], trees
+
     def external_decl_fix(self):
         pass
 
@@ -760,6 +839,22 @@ class DeclGen(Gen):
                         vl, val = self.literal_for(typ)
                         lx += [sym(":=")] + vl
                     init = simple_init(typ, val)
+                elif kk == 2 and r.random() < 0.5:
+                    typ = r.choice(["INT", "SINT", "DINT", "UINT"])
+                    lo, hi = r.randrange(0, 5), r.randrange(5, 100)
+                    lx += [ident(en), sym(":"), kw(typ), sym("("), lit(str(lo)), sym(".."), lit(str(hi)), sym(")")]
+                    sdef = None
+                    if r.random() < 0.4:
+                        lx += [sym(":="), lit(str(lo))]
+                        self.known.add("subrange-default-in-structure-element-dropped")
+                        sdef = "i:%d" % lo
+                    init = V("Subrange", V("Specification", T("SubrangeSpecification", type_name=low(typ),
+                                                              subrange=T("Subrange", start="i:%d" % lo, end="i:%d" % hi))))
+                    if sdef is not None:
+                        # the default has to be somewhere in the element; the tree has no place for it (recorded finding)
+                        lx += [sym(";"), N]
+                        els.append(T("StructureElementDeclaration", name=low(en), init=init, default=sdef))
+                        continue
                 elif kk == 2:
                     t2 = self.name("Ty")
                     lx += [ident(en), sym(":"), ident(t2)]
@@ -826,6 +921,11 @@ class DeclGen(Gen):
             vars_ += t
             edges += self.edges
         self.allow_edges = False
+        if kind != "FUNCTION" and r.random() < 0.3:
+            # variables at (incompletely) given addresses; fully located ones only in programs
+            l, t = self.located_block(incomplete=(kind == "FUNCTION_BLOCK" or r.random() < 0.5), allow_constant=True)
+            lx += l
+            vars_ += t
         body = self.stmt_list(0, r.choice([0, 1, 2, 3, 4])) if kind != "FUNCTION" else self.stmt_list(0, r.choice([1, 2, 3]))
         lx += self.stmts(body)
         lx += [kw("END_" + kind), N]
